@@ -519,7 +519,7 @@ fn rule_of(property: &str) -> String {
         "C08" => "statement cache on, pool cache sizes {1,2,3,8}, 2-4 clients over 1-3 connections per server; shared names s1..s3 with per-client texts, identical texts shared between clients (attribution by bind parameter), Parse/Describe/Bind/Execute/Close in all groupings, re-Parse after Close, Parse errors, eviction pressure, batches that use two named statements (one prepared earlier, one prepared in the batch), SQL-level PREPARE between transactions (the pooler then wipes the server connection's statements); every fifth run uses statement pairs whose (query, num_params, types) concatenations coincide",
         "C07" => "one shard with 0-3 replicas, with or without a primary, both load-balancing modes; per-server fault scripts (down = refuse + kill connections, hung after accept, rejects startup, black hole), statements that make the server close mid-reply (inside the first relayed piece, or after 8-30 kB of a 32 kB reply) or go quiet for good after part of the reply, admin BAN/UNBAN, ban_time 1-4 s, clients asking for primary/replica/any as sequences of short sessions; every fourth run is the ban-expiry sub-family (admin ban with duration, fault ban with ban_time, UNBAN)",
         "C17" => "the real main.rs select loop: populations of idle, never-used, mid-transaction (shorter and longer than shutdown_timeout), admin and newly arriving clients, clients caught between Parse/Bind/Execute and Sync, CancelRequest connections before the signal; SIGINT, repeated SIGINT, admin SHUTDOWN and SIGTERM at PRNG times; shutdown_timeout 300/1000/3000 ms; both pool modes",
-        "C14" => "old/new configuration pairs (unchanged, pool added, pool removed, servers changed, general setting changed, roles of two servers swapped in place, a user's pool_size, the pool mode or the client password changed, new pool whose server is down at reload time; syntactically invalid, seven semantically invalid kinds incl. a capitalised default_role, missing, unreadable, truncated), reload by admin RELOAD, SIGHUP and autoreload; workers of an unchanged pool with a transaction straddling the reload, workers of the changed/removed pool, clients arriving after the acknowledgement; yield point before POOLS.store; in a third of the runs the statement cache is on and workers execute after the reload a statement they prepared under a name before it",
+        "C14" => "old/new configuration pairs (unchanged, pool added, pool removed, servers changed, general setting changed, roles of two servers swapped in place, a user's pool_size, the pool mode or the client password changed, new pool whose server is down at reload time; syntactically invalid, seven semantically invalid kinds incl. a capitalised default_role, missing, unreadable, truncated), reload by admin RELOAD, SIGHUP, autoreload, and RELOAD with a SIGHUP at the same moment; workers of an unchanged pool with a transaction straddling the reload, workers of the changed/removed pool, clients arriving after the acknowledgement; yield point before POOLS.store; in a third of the runs the statement cache is on and workers execute after the reload a statement they prepared under a name before it",
         "C18" => "holders (inside a transaction), workers, never-used and failed-login clients, clients kicked at the checkout failure limit, CancelRequest connections, a client that leaves while another client holds the server connection it used last, a replica banned by the operator while clients are busy; clean and abrupt exits, also while holding a server; a barrier at which everybody is parked and the admin reads SHOW CLIENTS/SERVERS/POOLS/LISTS/STATS, and a second reading after everybody left",
         "C09" => "honest clients (MD5 cleartext secret, auth_query secret, trust user, admin) next to attackers: wrong password, replay of a response captured from an honest client of the same run, truncated and oversized responses, a Query in place of the password, EOF and silence in the handshake, the empty-secret answer, unknown user/database, another user's password, admin database with wrong or application credentials; every attacker keeps sending tagged queries afterwards; auth_query runs also change the secret on the servers mid-run and boot with the lookup role unable to log in; a quarter of the runs raise SIGINT while a transaction is open and send logins with valid and invalid credentials afterwards; every fifth run the pooler offers TLS (the repository's test certificate) and three quarters of the clients, honest or not, negotiate it",
         "C10" => "2-5 runners with sleeping statements (simple and extended, bare and inside transactions), idle periods and departures inside a transaction over pools of 1-2 connections per server with 0-2 replicas, both pool modes; 1-3 cancellers sending CancelRequests with the target's key while its statement runs, 0-3 ms and 150-600 ms after its transaction ended, after it left, and with a wrong secret, wrong pid or random key; a late victim with long statements on the reused connections; yield sites after claim and before release",
@@ -530,7 +530,7 @@ fn rule_of(property: &str) -> String {
         "C19" => "1-2 clients, table_access with two listed tables, one intercept rule, query logger on/off, configured globally or per pool, statement cache on/off; statements mentioning a listed or unlisted relation in 20 positions (FROM, JOIN, subqueries, CTE, INSERT/UPDATE/DELETE target, USING, INSERT..SELECT, EXISTS, UPDATE..FROM, COPY table, COPY (query), TRUNCATE, TABLE statement and TABLE expression in INSERT and UNION, MERGE..USING, FROM ONLY) and 9 spellings (case, quotes, schema and database qualification), sent alone, in multi-statement messages, in Parse..Sync batches with several Parses, inside transactions (simple and extended), and as a named Parse executed by a later Bind; the intercepted query in four spellings; every fourth run with plugins disabled; every sixth run the plugins are switched on by RELOAD while the clients are connected and idle",
         "C20" => "1-3 clients without pool contention over a primary (and optional replica) with 0-3 mirrors attached to either; simple, extended and transactional requests with known server-side durations; per-mirror fault scripts: down from the start, refuse + connection kills (fin/rst) with or without recovery, connect hang, black hole after accept, slow replies (50-2000 ms), startup rejected, every statement answered with an error, connection kills at PRNG times; a quarter of the runs without mirrors (control), a quarter with healthy mirrors; calm network in 70% of the runs (latency oracle), swarm otherwise",
         "C15" => "a base configuration (1-3 shards, primary and optional replica, 1-2 users) with at most one of 42 deviations: shard ids starting at 1, with a gap, non-numeric, huge, negative, with leading zero; two primaries, no primary, duplicate server, the same server in two shards, no servers; default_shard beyond range / last / random / random_healthy / bogus; default_role bogus, capitalised, or replica without replicas; user without password, incomplete auth_query, duplicate user names; min_pool_size above pool_size, pool_size 0; idle_timeout, server_lifetime, connect_timeout, autoreload, healthcheck_timeout, ban_time or shutdown_timeout of 0; invalid regexes; plugins or read/write splitting without parser; mirror of an absent server; bogus sharding function and pool mode; unqualified automatic sharding key. Booted through the real main; when accepted, one probe client per (user, shard id written in the file, role), one for the default shard, and an admin client reading six SHOW commands",
-        "C16" => "PAUSE/RESUME cycles (global or per pool) by an admin client; workers running throughout, clients that are idle when the pause begins, clients arriving after the PAUSE acknowledgement, mid-transaction clients; both pool modes; random subset of the yield sites inside wait_paused and between wait_paused and checkout; RESUME at PRNG times including right after a held client's message went out; in a third of the cycles the admin reloads a file with an unrelated change while the pool is paused",
+        "C16" => "PAUSE/RESUME cycles (global or per pool) by an admin client; workers running throughout, clients that are idle when the pause begins, clients arriving after the PAUSE acknowledgement, mid-transaction clients, clients whose batch began before the pause and whose Sync arrives during it; both pool modes; random subset of the yield sites inside wait_paused and between wait_paused and checkout; RESUME at PRNG times including right after a held client's message went out; in a third of the cycles the admin reloads a file with an unrelated change while the pool is paused",
         "C12" => "2-5 clients sharing 1-2 server connections; startup parameter sets and SET sequences of tracked and untracked parameters; every fourth run uses hostile values (quotes, backslashes, non-ASCII, empty); SET and SET LOCAL inside transactions that are committed or rolled back; every eighth run in session mode with an idle-in-transaction timeout that takes the server away from a client sitting in an open transaction",
         _ => "see DESIGN.md",
     };
